@@ -136,6 +136,11 @@ def run(R, ctx):
             lines.append(execgen.render(wr, [wr[1]]))
         lines.append(execgen.render([b"GET", b"ks"], [b"ks"]))
         lines.append(execgen.render([b"SET", b"after", b"1"], [b"after"], full=True))
+    # keys that are past their deadline and STILL STORED exist only while real time passes: one small batch of the ttl engine (every string/key probe, KEYS
+    # included, and the container families' probes) so that a command that wedges on such a key is seen by this property's own check as well
+    from .. import ttlgen, families
+    ex = families.ttl_extras()
+    lines += ttlgen.batch(rng, 80, extra_setup=ex[0], extra_probe=ex[1], attach_ms=520, only=["keys"] * 4 + ttlgen.PROBES)
     execsuite.run_exec_suite(R, ctx, name="crash-enumeration", gens=[(1, execgen.string_cmd)], nprog=(0, 0), corpus="exec_c04",
                              what="bounded-exhaustive vectors: every registered command (from fact F1) x arity 0-2 exhaustively over 13 first arguments "
                                   "(one key of each type, an expired key, a missing key, the empty key, a volatile key that was renamed, a volatile container with a re-armed deadline, a persisted and renamed set, a stream trimmed to zero entries) x a %d-word adversarial alphabet "
